@@ -116,10 +116,32 @@ class Db:
 
 # ------------------------------------------------------------------------------------------------ segment classes
 def _lit(node):
+    """literal, or a constant integer expression (`2 * 1024`, `1 << 10`, `0x400 + 0x200`, `-1`)"""
     try:
         return ast.literal_eval(node)
-    except (ValueError, SyntaxError):
+    except (ValueError, SyntaxError, TypeError):
+        pass
+    try:
+        return _int_expr(node)
+    except (ValueError, ZeroDivisionError):
         return None
+
+
+def _int_expr(node):
+    if isinstance(node, ast.Constant) and isinstance(node.value, int) and not isinstance(node.value, bool):
+        return node.value
+    if isinstance(node, ast.UnaryOp) and isinstance(node.op, (ast.USub, ast.UAdd)):
+        v = _int_expr(node.operand)
+        return -v if isinstance(node.op, ast.USub) else v
+    if isinstance(node, ast.BinOp):
+        a, b = _int_expr(node.left), _int_expr(node.right)
+        ops = {ast.Add: lambda: a + b, ast.Sub: lambda: a - b, ast.Mult: lambda: a * b, ast.FloorDiv: lambda: a // b,
+               ast.LShift: lambda: a << b, ast.RShift: lambda: a >> b, ast.BitOr: lambda: a | b, ast.BitAnd: lambda: a & b,
+               ast.Pow: lambda: a ** b if 0 <= b <= 64 else (_ for _ in ()).throw(ValueError())}
+        for k, f in ops.items():
+            if isinstance(node.op, k):
+                return f()
+    raise ValueError("not a constant integer expression")
 
 
 def segment_kinds():
